@@ -829,7 +829,8 @@ class Interp:
                 r = n.get("referencedDecl", {})
                 if r.get("kind") in ("VarDecl", "ParmVarDecl", "BindingDecl") and not parent_read:
                     qt = r.get("type", {}).get("qualType", "")
-                    if not qt.startswith("const ") or qt.rstrip().endswith("&"):
+                    readonly = qt.startswith("const ") and "*" not in qt      # const T / const T & : nothing to modify through it
+                    if not readonly:
                         mod.add(r.get("id"))
                 return
             read = False
